@@ -681,7 +681,7 @@ func TestC03(t *testing.T) {
 	rec.R.Exhaustive = true
 	rec.Flush()
 	// random operands
-	total := 1500 / cfg.NShards
+	total := 20000 / cfg.NShards
 	if cfg.Thorough() {
 		total = 200000 / cfg.NShards
 	}
